@@ -76,10 +76,13 @@ fn viol(sig: &str, msg: String) -> Violation {
 }
 
 /// polls the future until it is ready (true) or has gone to sleep without waking itself
-fn drive<F: Future>(f: &mut Pin<Box<F>>, cx: &mut Context<'_>, flag: &std::sync::Arc<Flag>, n: usize) -> bool {
+fn drive<F: Future>(f: &mut Pin<Box<F>>, _cx: &mut Context<'_>, flag: &std::sync::Arc<Flag>, n: usize) -> bool {
     for _ in 0..(4 * n + 64) {
         flag.clear();
-        if f.as_mut().poll(cx).is_ready() {
+        // every poll gets a waker of its own; only the latest one counts
+        let w = flag.fresh_waker();
+        let mut cx = Context::from_waker(&w);
+        if f.as_mut().poll(&mut cx).is_ready() {
             return true;
         }
         if !flag.is_set() {
@@ -196,7 +199,7 @@ async fn run_many_calls(cfg: &BurstCfg, out: &mut RunOut, text: &mut String) {
                     if outc.is_none() && flag.is_set() {
                         flag.clear();
                         any = true;
-                        let w = Waker::from(flag.clone());
+                        let w = flag.fresh_waker();
                         let mut cx = Context::from_waker(&w);
                         if let Poll::Ready(r) = f.as_mut().poll(&mut cx) {
                             *outc = Some(match r {
@@ -209,7 +212,8 @@ async fn run_many_calls(cfg: &BurstCfg, out: &mut RunOut, text: &mut String) {
                 if dflag.is_set() {
                     dflag.clear();
                     any = true;
-                    let mut cx = Context::from_waker(&dwaker);
+                    let dw = dflag.fresh_waker();
+                    let mut cx = Context::from_waker(&dw);
                     if dispatch.as_mut().poll(&mut cx).is_ready() {
                         out.violations.push(viol("C02-burst-dispatch-ended", "the dispatch ended with handles alive".into()));
                         return;
